@@ -3,6 +3,7 @@ module github.com/jdillenkofer/pithos/verifharness
 go 1.27.0
 
 require (
+	github.com/XSAM/otelsql v0.43.0
 	github.com/anishathalye/porcupine v1.3.0
 	github.com/aws/aws-sdk-go-v2 v1.43.5
 	github.com/aws/aws-sdk-go-v2/credentials v1.19.35
@@ -21,7 +22,6 @@ require (
 	github.com/Azure/go-ansiterm v0.0.0-20250102033503-faa5f7b0171c // indirect
 	github.com/Microsoft/go-winio v0.6.2 // indirect
 	github.com/Shopify/go-lua v0.0.0-20250718183320-1e37f32ad7d0 // indirect
-	github.com/XSAM/otelsql v0.43.0 // indirect
 	github.com/aws/aws-sdk-go v1.55.8 // indirect
 	github.com/aws/aws-sdk-go-v2/aws/protocol/eventstream v1.7.17 // indirect
 	github.com/aws/aws-sdk-go-v2/config v1.32.36 // indirect
@@ -152,3 +152,6 @@ require (
 )
 
 replace github.com/jdillenkofer/pithos => /repo
+
+// statement-level database fault seam: one added hook, see third_party/otelsql/verif_hook.go
+replace github.com/XSAM/otelsql => /verif/third_party/otelsql
